@@ -100,11 +100,11 @@ def _cycle(l):
 class SenderRun:
     """a real TCPPacketGenerator under taps; `events` accumulates the protocol lines, `trace` the observations"""
 
-    def __init__(self, env, kind, cc, rtt_estimate, size, data_out, arrival=None, sizes=None):
+    def __init__(self, env, kind, cc, rtt_estimate, size, data_out, arrival=None, sizes=None, flow_id=0):
         self.env = env
         self.kind = kind
         self.cc = cc
-        self.flow = Flow(flow_id=0, src='s', dst='d', finish_time=INF, size=size)
+        self.flow = Flow(flow_id=flow_id, src='s', dst='d', finish_time=INF, size=size)
         if arrival:
             # an application that writes at its own pace: inter-arrival times / write sizes cycle through the lists
             ai, si = iter(_cycle(arrival)), iter(_cycle(sizes or [512]))
@@ -188,46 +188,67 @@ class SenderRun:
         s = self.sender
         return (len(s.cwnd_avaialbe.items), len(s.cwnd_avaialbe.get_queue), s.action.is_alive)
 
-    def run(self, horizon=INF, budget=400000):
-        hz = horizon if callable(horizon) else (lambda: horizon)
+    def run(self, horizon=INF, budget=400000, peers=()):
         """step the kernel until its queue is empty (or the next event lies beyond `horizon`); a resumption of the
         `run` process is recognised by new segments or by a change of the wake-up store / process liveness in a
-        kernel step without tap"""
+        kernel step without tap.  `peers`: SenderRuns of other senders living in the same Environment - every sender
+        reads its own progress off its own taps and public state around each kernel step and keeps its own protocol
+        lines, observations and records"""
+        hz = horizon if callable(horizon) else (lambda: horizon)
         env = self.env
+        group = [self] + list(peers)
         while env.peek() <= hz() and env.peek() != INF:
-            if self.steps >= budget:
-                self.error = ('budget', None)
-                self.trace.append('R * X StepBudget')
+            if self.steps >= budget * len(group):
+                for g in group:
+                    g.error = ('budget', None)
+                    g.trace.append('R * X StepBudget')
                 return False
             self.steps += 1
-            self.tapped = False
-            ps = self.pstate()
-            n = len(self.tx.log)
-            before = self.state()
+            for g in group:
+                g.steps = self.steps
+                g._pre()
             try:
                 with quiet():
                     env.step()
             except Exception as x:
-                if self.error is None:
-                    # raised by the `run` process (or by something that is not under a tap)
-                    self.lines.append(f'W {fb(env.now)}')
-                    self.trace.append(f'R W X {EXC_NAMES.get(type(x).__name__, type(x).__name__)}')
-                    self.error = ('W', x)
+                if all(g.error is None for g in group):
+                    # raised by a `run` process (or by something that is not under a tap)
+                    for g in group:
+                        g.lines.append(f'W {fb(env.now)}')
+                        g.trace.append(f'R W X {EXC_NAMES.get(type(x).__name__, type(x).__name__)}')
+                        g.error = ('W', x)
+                else:
+                    tag = next(g.error[0] for g in group if g.error is not None)
+                    for g in group:
+                        if g.error is None:
+                            g.error = (f'{tag} of another sender in the same Environment', x)
                 return False
-            if not self.tapped and (len(self.tx.log) > n or self.pstate() != ps):
-                txs = self.tx.log[n:]
-                after = self.state()
-                # a waiting get() served by the kernel (hand-off) versus a resumption of the process
-                tag = 'H' if (ps[1] == 1 and ps[2] and not txs) else 'W'
-                self.lines.append(f'{tag} {fb(env.now)}')
-                self.trace.append(f'R {tag} ok tx={self.fmt_tx(txs, "n")}')
-                self.trace.append(self.fmt_state(after))
-                self.records.append({'tag': tag, 'now': env.now, 'before': before, 'after': after, 'tx': txs,
-                                     'line': self.lines[-1]})
-        self.lines.append(f'T {fb(env.now)}')
-        self.trace.append('R T ok tx=[]')
-        self.trace.append(self.snap())
+            for g in group:
+                g._post()
+        for g in group:
+            g.lines.append(f'T {fb(env.now)}')
+            g.trace.append('R T ok tx=[]')
+            g.trace.append(g.snap())
         return True
+
+    def _pre(self):
+        self.tapped = False
+        self._ps = self.pstate()
+        self._n = len(self.tx.log)
+        self._before = self.state()
+
+    def _post(self):
+        env, ps, n, before = self.env, self._ps, self._n, self._before
+        if not self.tapped and (len(self.tx.log) > n or self.pstate() != ps):
+            txs = self.tx.log[n:]
+            after = self.state()
+            # a waiting get() served by the kernel (hand-off) versus a resumption of the process
+            tag = 'H' if (ps[1] == 1 and ps[2] and not txs) else 'W'
+            self.lines.append(f'{tag} {fb(env.now)}')
+            self.trace.append(f'R {tag} ok tx={self.fmt_tx(txs, "n")}')
+            self.trace.append(self.fmt_state(after))
+            self.records.append({'tag': tag, 'now': env.now, 'before': before, 'after': after, 'tx': txs,
+                                 'line': self.lines[-1]})
 
     def text(self, cid):
         return '\n'.join([f'CASE {cid}'] + self.lines + ['END'])
